@@ -14,12 +14,12 @@ theorem eatRegexpUnicodeEscapeSequence_wb (n : Nat) (f : Bool) (r : List Nat) (s
       if b = true then ∃ r1 v, BAt src K r1 s1 ∧
         (if f = true then RegExpUnicodeEscapeSequence r r1 v else ∃ m, r = ch 'u' :: m ∧ Hex4Digits m r1 v) ∧
         s1.lastIntValue = (v : Nat)
-      else BAt src K r s1) := by
+      else BAt src K r s1 ∧ (f = false → ¬∃ m r' v, r = ch 'u' :: m ∧ Hex4Digits m r' v)) := by
   cases f with
   | true =>
     unfold eatRegexpUnicodeEscapeSequence
     rx6_auto
-    all_goals (try rx6_false)
+    all_goals (try (rx6_falsen; exact fun h => nomatch h))
     · -- `u{ CodePoint }`
       rename_i m hat0 s1 hk1 hat1 hnp s2 hk2 hat2 hn4 s3 hk3 ds r1 hm hne hds hle hat3 hv
       rx6_true
@@ -50,9 +50,21 @@ theorem eatRegexpUnicodeEscapeSequence_wb (n : Nat) (f : Bool) (r : List Nat) (s
   | false =>
     unfold eatRegexpUnicodeEscapeSequence
     rx6_auto
-    all_goals (try rx6_false)
-    rename_i m hat0 s1 hk1 ds r1 hm hlen hds hat1 hv
-    rx6_true
-    exact ⟨r1, mvHex ds, hat1, ⟨m, rfl, hex4_of hm hlen hds⟩, hv⟩
+    · rx6_falsen
+      rename_i m _ _ _ _ hno _
+      rintro _ ⟨m', r', v, e, a, b, c', d, e2, ha, hb, hc, hd, _⟩
+      have e' : m = m' := (List.cons.inj e).2
+      subst e'
+      refine hno ⟨[a, b, c', d], r', e2, rfl, ?_⟩
+      intro x hx
+      simp only [List.mem_cons, List.not_mem_nil, or_false] at hx
+      rcases hx with rfl | rfl | rfl | rfl <;> assumption
+    · rename_i m hat0 s1 hk1 ds r1 hm hlen hds hat1 hv
+      rx6_true
+      exact ⟨r1, mvHex ds, hat1, ⟨m, rfl, hex4_of hm hlen hds⟩, hv⟩
+    · rx6_falsen
+      rename_i hne
+      rintro _ ⟨m', r', v, e, _⟩
+      exact hne (by rw [e]; rfl)
 
 end DL.Rx
